@@ -359,6 +359,17 @@ def read_source(relfile, overlay):
         raise GenError("cannot read %s: %s" % (p, e))
 
 
+def region_raw_text(unit, region, overlay):
+    _, parts = parse_template(os.path.join(VERIF, "units", unit + ".vrs"))
+    for p in parts:
+        if p[0] == "block" and p[1].kind == "region":
+            o2, w2 = parse_opts(p[1].args)
+            if len(w2) >= 3 and w2[2] == region:
+                ex, _ = expand_block(p[1], overlay, [], "verus")
+                return ex.text
+    raise GenError("region %s not found in unit %s" % (region, unit))
+
+
 def apply_rw(text, d, ex):
     """d: Directive rw / rwlit.  returns new text"""
     args = d.args
@@ -380,7 +391,15 @@ def apply_rw(text, d, ex):
             rx = re.compile(pat, re.M | (re.S if opts.get("dotall") else 0))
         except re.error as e:
             raise GenError("line %d: bad regex %s" % (d.lineno, e))
-        new, cnt = rx.subn(repl.replace("\\n", "\n") if False else repl, text)
+        if cls == "region-call" and "same" in opts:
+            # the replaced text must be the text that unit U proves as region R (modular step, DESIGN.md 2.2)
+            u2, r2 = opts["same"].split(":", 1)
+            other = region_raw_text(u2, r2, getattr(ex, "overlay", None))
+            for mm in rx.finditer(text):
+                norm = lambda t: [l.strip() for l in t.strip().split("\n")]
+                if norm(mm.group(0)) != norm(other):
+                    raise GenError("region-call in %s: the replaced text is not the text proved as %s in unit %s" % (ex.name, r2, u2))
+        new, cnt = rx.subn(repl, text)
     else:
         frm, rest = parse_quoted(rest)
         if not rest.startswith("->"):
@@ -674,6 +693,7 @@ def expand_block(b, overlay, unit_breaks, backend="verus"):
         name = opts.get("as", path.split("::")[-1])
         shown = path if "as" not in opts else ("::".join(path.split("::")[:-1] + [name]))
         ex = Extracted(shown, relfile, raw, hashlib.sha256(raw.encode()).hexdigest()[:16], "fn")
+        ex.overlay = overlay
         text, dropped = rustlex.strip_prefix(raw)
         ex.dropped = [x for x in dropped if not x.startswith("//")]
         for d in b.subs:
@@ -716,6 +736,7 @@ def expand_block(b, overlay, unit_breaks, backend="verus"):
             raise GenError(str(e))
         ftext = src[it.start:it.end]
         ex = Extracted("%s@%s" % (path, name), relfile, "", "", "region")
+        ex.overlay = overlay
         start = end = None
         wrap = prologue = epilogue = ""
         for d in b.subs:
@@ -857,6 +878,11 @@ def contract_stub(args, overlay, meta, lineno):
                 pass
     want_as = opts.get("of")
     for p in allparts:
+        if p[0] == "block" and p[1].kind in ("region", "expr"):
+            o2, w2 = parse_opts(p[1].args)
+            if len(w2) >= 3 and w2[2] == path:      # addressed by the wrapper name
+                blk = p[1]
+                break
         if p[0] == "block" and p[1].kind == "fn":
             o2, w2 = parse_opts(p[1].args)
             if "as" in w2:
